@@ -1,4 +1,4 @@
-\* exhaustive: Gen/Enc on 16 grids up to 4x4, k = 1..3; solve loop on grids up to 3x2 with every occupancy in {0, 1/2, 1}^cells
+\* exhaustive: Gen/Enc on 16 grids up to 4x4, k = 1..3; solve loop on grids up to 2x2 and 3x1 (uniform and non-uniform) with every occupancy in {0, 1/2, 1}^cells
 SPECIFICATION Spec
 CONSTANTS
   GRIDS <- ThoroughAllGrids
